@@ -96,7 +96,7 @@ func registerModels(ex *Exec) {
 		s.Syms = append(s.Syms, SymRec{Name: name, Kind: "int", Terms: []*Term{t}})
 		f := &Fork{}
 		for i := 0; i < int(kt.U); i++ {
-			f.Alts = append(f.Alts, Alt{Cond: ex.Ctx.Eq(t, ex.Ctx.BV(64, uint64(i))), Ret: ex.Ctx.BV(64, uint64(i))})
+			f.Alts = append(f.Alts, Alt{Cond: ex.Ctx.Eq(t, ex.Ctx.BV(64, uint64(i))), Ret: ex.Ctx.BV(64, uint64(i)), Tag: fmt.Sprintf("%s=%d;", name, i)})
 		}
 		return nil, f, nil
 	}
@@ -135,6 +135,12 @@ func registerModels(ex *Exec) {
 		}
 		return ex.Ctx.ZExt(r, 64), nil, nil
 	}
+	m["intrinsic:verifSymbolic"] = func(ex *Exec, s *State, cc *ssa.CallCommon, a []Value) (Value, *Fork, error) {
+		return ex.Ctx.True(), nil, nil
+	}
+	m["intrinsic:verifVariant"] = func(ex *Exec, s *State, cc *ssa.CallCommon, a []Value) (Value, *Fork, error) {
+		return ex.Ctx.BV(64, 0), nil, nil
+	}
 	m["intrinsic:verifAsAssign"] = modelAsAssign
 	m["intrinsic:verifObserve"] = func(ex *Exec, s *State, cc *ssa.CallCommon, a []Value) (Value, *Fork, error) {
 		return nil, nil, nil
@@ -143,6 +149,29 @@ func registerModels(ex *Exec) {
 	// ---- fmt / errors
 	m["fmt.Errorf"] = modelErrorf
 	m["fmt.Sprintf"] = modelSprintf
+	// github.com/pkg/errors (used by iota.go): stack traces are irrelevant here
+	m["github.com/pkg/errors.New"] = func(ex *Exec, s *State, cc *ssa.CallCommon, a []Value) (Value, *Fork, error) {
+		et := ex.lookupType("errors", "errorString")
+		if et == nil {
+			return nil, nil, unsupported("errors.errorString type not loaded")
+		}
+		id := ex.newObject(s, &StructV{F: []Value{a[0]}}, et)
+		return IfaceV{T: types.NewPointer(et), V: Ptr{Obj: id}}, nil, nil
+	}
+	pkgWrap := func(ex *Exec, s *State, cc *ssa.CallCommon, a []Value) (Value, *Fork, error) {
+		iv, _ := a[0].(IfaceV)
+		if iv.T == nil {
+			return IfaceV{}, nil, nil
+		}
+		wt := ex.lookupType("fmt", "wrapError")
+		if wt == nil {
+			return nil, nil, unsupported("fmt.wrapError type not loaded")
+		}
+		id := ex.newObject(s, &StructV{F: []Value{a[1], iv}}, wt)
+		return IfaceV{T: types.NewPointer(wt), V: Ptr{Obj: id}}, nil, nil
+	}
+	m["github.com/pkg/errors.Wrap"] = pkgWrap
+	m["github.com/pkg/errors.Wrapf"] = pkgWrap
 	m["fmt.Sprint"] = func(ex *Exec, s *State, cc *ssa.CallCommon, a []Value) (Value, *Fork, error) {
 		return ex.strConst("<fmt.Sprint>"), nil, nil
 	}
